@@ -9,6 +9,7 @@ list, every option value and both collecting modes, starting from any struct con
 import DmlcModel.Param.RunSpec
 import DmlcModel.Param.Spec
 import DmlcModel.Param.Dict
+import DmlcModel.Param.FloatRoundTrip
 
 namespace DmlcModel.Props.C17
 open DmlcModel DmlcModel.Param
@@ -198,44 +199,47 @@ theorem C17_field_roundtrip (ops : FloatOps) (f : Field) (hE : EnumsInRange f) (
     (hs : getString ops f v = .ok s) : parse ops f s = .ok v :=
   field_roundtrip ops f hE hN v hnf hwt hck s hs
 
-/-- JSON strings: `ReadString` undoes `WriteString` for every byte string -/
-theorem C17_json_string_roundtrip (s rest : Bytes) :
-    jsonReadString (jsonString s ++ rest) = some (s, rest) := by
-  unfold jsonReadString jsonString
-  have : skipWs ((34 : Byte) :: (jsonEscape s ++ [34]) ++ rest) = (34 : Byte) :: (jsonEscape s ++ (34 : Byte) :: rest) := by
-    simp [skipWs, cIsSpace]
-  rw [this]
-  simp [jsonReadStrBody_escape]
+/-- the JSON map reader inverts the JSON map writer on every key-sorted `std::map<std::string, std::string>`
+(any keys, any values): instance of C16's `readTop_writeTop` — `Save`/`Load` of the model go through the C16
+model of json.h (`Json.writeTop` / `Json.readTop` at type `map<str>`). -/
+theorem C17_json_map_roundtrip (kvs : List KV) (h : incK (kvs.map (·.1))) :
+    ∃ bs, jsonWriteMap kvs = some bs ∧ jsonReadMap bs = some kvs :=
+  json_map_roundtrip kvs h
 
-/-- **JSON form, full statement** (not proved in full: the object-level reader loop over the writer's
-output — separators, line breaks, key order — is covered by correspondence only; proved parts:
-`C17_json_string_roundtrip` for every string value and `C17_json_roundtrip_partial` below). -/
-def C17_json_roundtrip_statement : Prop :=
-  ∀ (ops : FloatOps) (S : Schema), (allKeys S).Nodup →
-    (∀ k ∈ allKeys S, ∀ c ∈ k, c.toNat ≠ 34 ∧ c.toNat ≠ 92 ∧ c.toNat ≠ 10 ∧ c.toNat ≠ 13) →
-    ∀ (R : Field → Val → Val → Prop) (st : Struct) (js : Bytes), save ops S st = .ok js →
-    (∀ i f, S[i]? = some f → ∀ s, getString ops f (st i) = .ok s → ∃ v', parse ops f s = .ok v' ∧ R f (st i) v') →
-    ∀ st0, (load ops S st0 js).err = none ∧ ∀ i f, S[i]? = some f → R f (st i) ((load ops S st0 js).st i)
-
-/-- **JSON form, partial**: as the full statement, with the extra hypothesis that the map reader returns
-the dictionary the map writer was given. -/
-theorem C17_json_roundtrip_partial (ops : FloatOps) (S : Schema) (hS : (allKeys S).Nodup)
-    (R : Field → Val → Val → Prop) (st : Struct) (kvs : List KV) (js : Bytes)
-    (hd : dict ops S st = .ok kvs) (hsv : save ops S st = .ok js)
-    (hread : jsonReadMap (jsonWriteMap kvs) = some kvs)
-    (H : ∀ i f, S[i]? = some f → ∀ s, getString ops f (st i) = .ok s → ∃ v', parse ops f s = .ok v' ∧ R f (st i) v')
-    (st0 : Struct) :
-    (load ops S st0 js).err = none ∧ ∀ i f, S[i]? = some f → R f (st i) ((load ops S st0 js).st i) := by
-  have hjs : js = jsonWriteMap kvs := by
-    unfold save at hsv
-    rw [hd] at hsv
-    simp only [Except.ok.injEq] at hsv
-    exact hsv.symm
-  subst hjs
+/-- **JSON form (full).**  Whenever `__DICT__()` exists (no enum field holds a non-enumerated value), `Save`
+produces a text, and `Load` of that text into ANY struct does not throw and yields a struct related to the
+saved one field by field (`R` and `H` as in `C17_dict_roundtrip`: `H` is proved with `R = Eq` for every kind but
+float/double by `C17_field_roundtrip`, and by `C17_float_field_roundtrip` for float/double). -/
+theorem C17_json_roundtrip (ops : FloatOps) (S : Schema) (hS : (allKeys S).Nodup)
+    (R : Field → Val → Val → Prop) (st : Struct) (kvs : List KV) (hd : dict ops S st = .ok kvs)
+    (H : ∀ i f, S[i]? = some f → ∀ s, getString ops f (st i) = .ok s → ∃ v', parse ops f s = .ok v' ∧ R f (st i) v') :
+    ∃ js, save ops S st = .ok js ∧
+      ∀ st0, (load ops S st0 js).err = none ∧ ∀ i f, S[i]? = some f → R f (st i) ((load ops S st0 js).st i) := by
+  obtain ⟨bs, hw, hr⟩ := json_map_roundtrip kvs (dict_incK ops S st kvs hd)
+  refine ⟨bs, by simp [save, hd, hw], fun st0 => ?_⟩
   unfold load
-  rw [hread]
+  rw [hr]
   simp only [init]
   obtain ⟨h1, _, h3⟩ := dict_reinit ops S hS R st kvs hd H Gen.Param.kAllowHidden false st0
   exact ⟨h1, h3⟩
+
+/-- **float / double fields, re-reading a printed value** (conversion = the C14 model of `dmlc::stof`/`stod`,
+`opsC14`).  If the printed text `t` is one decimal lexeme within `ParseFloat`'s documented limits
+(`PrintedDecimal`: at most 19 integer digits, at most 19 fraction digits or mantissa ≥ 1e-12 / 1e-4, exponent
+field ≤ 38 / 308 with the value inside the normal range), then `Set` consumes all of `t` and stores a finite value
+of the printed sign whose magnitude is within C14's bound `tol` = 1e-6 / 1e-14 (relative) of the decimal value
+printed, for any prior `errno`; `Check` then decides (`hck`; vacuous for unbounded fields, `check_unranged`).
+What stays a hypothesis is the printing side only — that `os << setprecision(9|17) << v` (libc `%.Pg`) emits such
+a lexeme whose decimal value is the P-digit rounding of `v` (1e-4 ≤ |v| < 1e38 / 1e308; "inf"/"nan" spellings and
+zero are outside C14's accuracy theorem and are covered by correspondence only).  C14 proves no exactness for
+fractional literals, so no exact round trip is claimed for float fields. -/
+theorem C17_float_field_roundtrip (stale : Bool) (p32 p64 : Nat → Bytes) (fld : Field) (f : StrToNum.Fmt)
+    (hty : (f = .F32 ∧ fld.ty = .float) ∨ (f = .F64 ∧ fld.ty = .double))
+    (t : Bytes) (l : StrToNum.Lexeme) (hp : PrintedDecimal f t l)
+    (hck : ∀ q, StrToNum.Approx (StrToNum.tol f) q (DmlcModel.Props.C14.absQ (StrToNum.decimalValue l)) →
+      check fld (.flt ((⟨l.neg, .fin q⟩ : StrToNum.FVal).bits f)) = none) :
+    ∃ q, parse (opsC14 stale p32 p64) fld t = .ok (.flt ((⟨l.neg, .fin q⟩ : StrToNum.FVal).bits f)) ∧
+      StrToNum.Approx (StrToNum.tol f) q (DmlcModel.Props.C14.absQ (StrToNum.decimalValue l)) :=
+  float_field_reparse stale p32 p64 fld f hty t l hp hck
 
 end DmlcModel.Props.C17
